@@ -143,7 +143,8 @@ def r06_5(ctx):
 
 
 def run(ctx):
-    return r06_1(ctx) + r06_2(ctx) + r06_3(ctx) + r06_4(ctx) + r06_5(ctx)
+    from runner import collect
+    return collect(ctx, r06_1, r06_2, r06_3, r06_4, r06_5)
 
 
 def run_fixture(fctx):
